@@ -11,7 +11,7 @@ PROP = {
             "depth 0..25), estimator-regular families exp(wx), cosh(wx), (x+s)^-k, x^p with max|f''''|/min|f''''| <= 4 checked analytically, "
             "quartic splines with piecewise constant f'''' in [m,4m], and rough integrands (kinks, steps, noise, spikes) for the universal clauses",
     "floors": {
-        "quick": {"cases": 60000, "distinct_nontrivial": 30000, "ticks": {"Simpson.panel": 1000000},
+        "quick": {"cases": 150000, "distinct_nontrivial": 83000, "ticks": {"Simpson.panel": 1000000},
                   "clauses": {"polynomial-degree<=5-exact": 40000, "error-at-most-4eps-on-regular-integrands": 8000,
                               "swap-negates-bit-for-bit": 60000, "epsilon-sign-irrelevant": 60000, "equal-limits-zero-no-evaluation": 60000,
                               "evaluations-inside-closed-interval": 120000, "evaluation-count-at-most-2^(depth+2)+1": 120000}},
